@@ -636,3 +636,32 @@ PROPS["C15"] = {
         "note": "Trusted: Lean kernel; fact extractor; monitors; sync/atomic and channel-close semantics. Partial: scheduler sampled.",
         "technique": "Lean 4 proof (finite interleaving model decided in the kernel) + structural facts + differential correspondence + stress monitors"},
 }
+
+
+# ---- regenerated *bodies* of execution.go's protected methods and of the executors' decision code (Generated/X*.lean): each is proved equal
+# to its reference definition (Tie/X*.lean) and the composition model is proved to compute those reference definitions
+# (Lemmas/ExecBodiesLink.lean). A property lists the areas its theorems rest on.
+_LINK = "Failsafe.Lemmas.ExecBodiesLink"
+_X = {
+    "XExecution": ["exec_is_canceled", "exec_record_result", "exec_initialize_retry", "exec_cancel", "exec_copy_for_hedge", "exec_record",
+                   "exec_last_error", "exec_copy_with_result"],
+    "XRetry": ["retry_on_failure"], "XBase": ["base_post_execute"], "XCache": ["cache_get_key", "cache_pre_execute", "cache_post_execute"],
+    "XFallback": ["fallback_apply"], "XBulkhead": ["bulkhead_pre_execute"],
+}
+def _extend(pid, areas, link=True):
+    c = PROPS[pid]
+    for a in areas:
+        c["ties"] = c["ties"] + ["Failsafe.Tie." + a]
+        c["kernels"] = c["kernels"] + [k for k in _X[a] if k not in c["kernels"]]
+    if link and _LINK not in c["ties"]:
+        c["ties"] = c["ties"] + [_LINK]
+    c["manifest"]["text"] += " GEN also covers the bodies of the code this property runs through (%s): regenerated from the source on every run, proved equal to reference definitions, which the composition model is proved to compute." % ", ".join(areas)
+_extend("C01", ["XBase"])
+_extend("C02", ["XRetry", "XBase"])
+_extend("C06", ["XBulkhead"], link=False)
+_extend("C08", ["XExecution", "XBulkhead"])
+_extend("C10", ["XFallback", "XBase"])
+_extend("C11", ["XCache"])
+_extend("C15", ["XExecution"], link=False)
+_extend("C16", ["XRetry", "XCache", "XFallback"])
+_extend("C17", ["XExecution"])
